@@ -394,6 +394,9 @@ ScaleFindings(e) ==
   LET a == e.wk[1]  b == e.wk[2]
   IN (IF b.lines > a.lines + ScaleSlack(a.lines) THEN {<<"work_scale_lines", 1, "", b.lines>>} ELSE {})
      \cup (IF Len(b.calls) > Len(a.calls) THEN {<<"work_scale_calls", 1, "", Len(b.calls)>>} ELSE {})
+     \* the candle manager's own housekeeping per append (conversion resume scan, trimming): measured only
+     \* without a collapsing timeframe, where it does not depend on the history either
+     \cup (IF b.mlines > a.mlines + ScaleSlack(a.mlines) THEN {<<"work_scale_manager", 1, "", b.mlines>>} ELSE {})
      \cup (IF a.minread >= 0 /\ b.minread >= 0 /\ (b.hist - b.minread) > (a.hist - a.minread) + 2
            THEN {<<"work_scale_lookback", 1, "", b.hist - b.minread>>} ELSE {})
      \cup {<<"ok", 1, "work", 0>>}
